@@ -83,6 +83,13 @@ def gen_value(rng, t):
         for d in shape:
             n *= d
         return {"shape": shape, "items": [gen_value(rng, t["item"]) for _ in range(n)]}
+    if k == "ref":
+        return None if rng.random() < 0.25 else {"r": gen_value(rng, t["target"])}
+    if k == "union":
+        if rng.random() < 0.25:
+            return None
+        m = rng.randrange(len(t["members"]))
+        return {"m": m, "v": gen_value(rng, t["members"][m])}
     raise ValueError(k)
 
 
